@@ -24,6 +24,9 @@ def full_alphabet():
         {'op': 'dilute', 'obj': 'B', 'solute': 'nacl', 'conc': '1 M', 'solvent': 'dmso'},      # above the current conc.
         {'op': 'dilute', 'obj': 'B', 'solute': 'nacl', 'conc': '0.01 M', 'solvent': 'dmso'},   # beyond the capacity
         {'op': 'dilute', 'obj': 'A', 'solute': 'nacl', 'conc': '0.05 M', 'solvent': 'water'},
+        {'op': 'dilute', 'obj': 'A', 'solute': 'nacl', 'conc': '0.08 M', 'solvent': 'water', 'new_name': 'A-diluted'},
+        {'op': 'observe', 'obj': 'P'}, {'op': 'observe', 'obj': ['P', "(slice(None), slice(2, 3))"]}, {'op': 'observe', 'obj': 'A'},
+        {'op': 'observe', 'obj': ['Q', "1"]},
         {'op': 'create_solution', 'solute': 'nacl', 'solvent': 'water', 'name': 'S',
          'kw': {'concentration': '0.5 M', 'total_quantity': '2 mL'}},
         {'op': 'create_solution', 'solute': 'nacl', 'solvent': 'A', 'name': 'S',
@@ -152,6 +155,12 @@ def boundary_cases(vidx=0):
                               ('@cur@1.0@L', 'either', 'at-current', 'L'), ('@cur@1.0@g', 'either', 'at-current', 'g'),
                               ('5 U', 'refuse', 'activity-target', 'U')):
         add(f"fill_to,{tag},unit={u}", Wf, [], {'op': 'fill_to', 'obj': 'C', 'solvent': 'water', 'q': q}, expect)
+    # a hair (a few 1e-11 of the base unit) below what the container holds, with a solvent it does not hold yet:
+    # refusing or accepting are both fine, a negative amount of the solvent is not
+    for u in ('L', 'g', 'mol'):
+        for hair in ('3e-11', '4.9e-11', '1e-12'):
+            add(f"fill_to,hair-below-current,unit={u}", Wf, [],
+                {'op': 'fill_to', 'obj': 'C', 'solvent': 'tea', 'q': f'@cur-hair@{hair}@{u}'}, 'either')
     prep = [T('S', ['R', "(1, 1)"], '300 uL'), T('S', ['R', "(2, 2)"], '100 uL')]
     add('fill_to,below-current,one-well-of-plate', Wf, prep, {'op': 'fill_to', 'obj': 'R', 'solvent': 'water',
                                                                'q': '200 uL'}, 'refuse')
@@ -178,6 +187,12 @@ def boundary_cases(vidx=0):
                             ({'concentration': '0 M', 'total_quantity': '10 mL'}, 'refuse', 'zero-concentration')):
         add(f"create_solution,{tag}", {}, [], {'op': 'create_solution', 'solute': 'nacl', 'solvent': 'water', 'name': 'N',
                                                'kw': kw}, expect)
+    # several solutes, concentration AND quantity for each (over-determined): contradictory in either direction
+    for qs, tag in ((['1 g', '5 g'], 'later-quantity-too-large'), (['1 g', '0.5 g'], 'later-quantity-too-small'),
+                    (['5 g', '1 g'], 'first-quantity-too-large')):
+        add(f"create_solution,inconsistent,{tag}", {}, [],
+            {'op': 'create_solution', 'solute': ['nacl', 'na2so4'], 'solvent': 'water', 'name': 'N',
+             'kw': {'concentration': ['1 M', '1 M'], 'quantity': qs}}, 'refuse')
     Ws = {'V': ('container', 'inf L', [('water', '5 mL')])}
     add('create_solution,container-solvent,exceeds-solvent', Ws, [],
         {'op': 'create_solution', 'solute': 'nacl', 'solvent': 'V', 'name': 'N',
@@ -205,7 +220,11 @@ def symbolic(pp, subs, world, act):
     from fractions import Fraction as F
     act = dict(act)
     q = act.get('q', '')
-    if q.startswith('@cur@'):                       # fill_to: factor x current quantity of the object
+    if q.startswith('@cur-hair@'):                  # fill_to: the current quantity minus a hair, written with 17 digits
+        _, _, hair, unit = q.split('@')
+        cur = ref.measure(pp, world[e1.refname(act['obj'])].contents, unit)
+        act['q'] = f"{float(cur - F(hair)):.17g} {unit}"
+    elif q.startswith('@cur@'):                     # fill_to: factor x current quantity of the object
         _, _, f, unit = q.split('@')
         cur = ref.measure(pp, world[e1.refname(act['obj'])].contents, unit)
         act['q'] = f"{float(cur) * float(f) * 1000:.9g} m{unit}"
